@@ -533,6 +533,8 @@ class Companion(object):
         env = dict(os.environ)
         env['PYTHONHASHSEED'] = str(hashseed)
         env['VERIF_REPO'] = core.repo_path()
+        env['PYTHONPYCACHEPREFIX'] = os.path.join(core.VERIF_DIR, '.no-pycache')
+        env['PYTHONDONTWRITEBYTECODE'] = '1'
         self.hashseed = hashseed
         self.proc = subprocess.Popen([core.PYTHON, '-B', os.path.join(core.SIM_DIR, 'oracle.py')],
                                      stdin=subprocess.PIPE, stdout=subprocess.PIPE, env=env)
